@@ -1019,6 +1019,73 @@ func (g *Gen) makeDisjoint(l, r *Q) *Q {
 	return g.rename(r, com, to)
 }
 
+// makeDiff: union / intersect / minus compare all columns of both sources, a column one source
+// lacks counts as "". Starting from two sources with the same columns, give ONE side (either)
+// a column the other lacks, often fixed by where/extend to "" or to a set containing "" -
+// then the sources are not disjoint although a fixed column exists on one side only.
+func (g *Gen) makeDiff(l, r *Q) (*Q, *Q) {
+	side, other := &r, &l
+	if g.rnd.Intn(2) == 0 {
+		side, other = &l, &r
+	}
+	emptyish := func(k Kind) []Val { // value sets containing ""
+		v := g.constFor(k)
+		switch g.rnd.Intn(4) {
+		case 0:
+			return []Val{vEmpty, v}
+		case 1:
+			return []Val{v, vEmpty}
+		}
+		return []Val{vEmpty}
+	}
+	if len((*other).cols) >= 2 && g.rnd.Intn(2) == 0 {
+		// drop a column (preferably one that can be "") from the other side ...
+		cols := shuffled(g.rnd, (*other).cols)
+		c := cols[0]
+		for _, x := range cols {
+			if (*other).kinds[x]&kE != 0 {
+				c = x
+				break
+			}
+		}
+		*other = g.remove(*other, []string{c})
+		// ... and fix it on this side
+		s := *side
+		switch g.rnd.Intn(4) {
+		case 0: // not fixed
+		case 1: // fixed to a non-empty value: really disjoint
+			*side = g.fixOn(s, c)
+		default:
+			vs := emptyish(s.kinds[c])
+			var e *Ex
+			if len(vs) == 1 {
+				e = &Ex{K: "cmp", O: "is", A: &Ex{K: "col", C: c}, B: &Ex{K: "const", V: vs[0]}}
+			} else {
+				e = &Ex{K: "in", A: &Ex{K: "col", C: c}, Vs: vs}
+			}
+			*side = &Q{Op: "where", Src: s, E: e, cols: s.cols, kinds: s.kinds}
+		}
+		return l, r
+	}
+	// a new column on this side, computed by extend
+	s := *side
+	name := g.fresh(append(append([]string{}, l.cols...), r.cols...))
+	v := vEmpty
+	if g.rnd.Intn(4) == 0 {
+		v = g.constFor(kN | kS)
+	}
+	e := &Q{Op: "extend", Src: s, Cols: []string{name}, Exprs: []*Ex{{K: "const", V: v}},
+		cols: append(append([]string{}, s.cols...), name), kinds: copyKinds(s.kinds)}
+	e.kinds[name] = kindOf(v)
+	*side = e
+	if g.rnd.Intn(3) == 0 {
+		// and a where on top (fixed by where instead of only by extend)
+		vs := emptyish(kindOf(v) | kE)
+		*side = &Q{Op: "where", Src: e, E: &Ex{K: "in", A: &Ex{K: "col", C: name}, Vs: vs}, cols: e.cols, kinds: e.kinds}
+	}
+	return l, r
+}
+
 // makeSame returns r adapted to have exactly the columns of l
 func (g *Gen) makeSame(l, r *Q) *Q {
 	var missing, surplus []string
@@ -1088,7 +1155,12 @@ func (g *Gen) binary(op string, l, r *Q) *Q {
 			q.kinds[c] = k
 		}
 		q.ByAssert = (op == "join" || op == "leftjoin") && g.rnd.Intn(4) == 0
-	default: // semijoin intersect minus: rows of the left side
+	case "intersect": // the common columns of rows of the left side
+		q.cols = common(l.cols, r.cols)
+		for _, c := range q.cols {
+			q.kinds[c] = l.kinds[c]
+		}
+	default: // semijoin minus: rows of the left side
 		q.cols = l.cols
 		q.kinds = l.kinds
 	}
@@ -1168,6 +1240,9 @@ func (g *Gen) gen(d int) *Q {
 			r = g.makeDisjoint(l, r)
 		default:
 			r = g.makeSame(l, r)
+			if g.rnd.Intn(4) == 0 {
+				l, r = g.makeDiff(l, r)
+			}
 		}
 		if com := common(l.cols, r.cols); len(com) > 0 && g.rnd.Intn(4) == 0 {
 			// fixed values on a common column, on one or both sides
